@@ -1,6 +1,7 @@
 import UsualProofs.C18.Scan
 import UsualProofs.C18.NumP
 import UsualProofs.C18.ConfigP
+import UsualProofs.C18.LoadP
 /-!
 # C18 — Config parser delivers exactly the documented events and typed values
 
@@ -10,7 +11,8 @@ restoration explicit); `Spec` = the line grammar as an independent tokenizer (`l
 `runLines`, `specFile`); `Config` = `cf_set/cf_get/find_sect/find_key/get_dest/fill_defaults/
 load_handler/cf_load_file` over an abstract schema; `Num` = strtol/strtoul base 0, `%d`/`%u`,
 binary64 rounding, and the *modelled libc* `strtodC`/`fmtG` (parameters `Env` of every theorem).
-The code modelled is the tree with repair F24 (`cf_set_time_usec` rounds and range-checks).
+The code modelled is the tree with repairs F24 (`cf_set_time_usec` rounds and range-checks) and F37
+(`cf_set_int`/`cf_set_uint` reject what does not fit instead of wrapping).
 -/
 namespace UsualProps.C18
 open Usual.C18 UsualProofs.C18
@@ -169,6 +171,32 @@ example : cfGet exEnv (exCf false none) (cfSet exEnv (exCf false none) exSt [109
     (renderInt (-2147483648))).1 [109, 97, 105, 110] [105] = some (renderInt (-2147483648)) := by
   decide +kernel
 
+/-- **int/uint store the value the text denotes, or nothing** (repair F37): whatever
+    `cf_set_int` / `cf_set_uint` accept is the integer the literal denotes (sign, `0x`/`0`
+    prefix), inside `int` / `unsigned int`; nothing is wrapped or clamped. -/
+theorem set_int_stores_denoted_value (s : Bytes) :
+    (∀ v, setInt s = some v →
+      v = litValue (strtoBase0 s) ∧ -2147483648 ≤ v ∧ v ≤ 2147483647) ∧
+    (∀ n, setUint s = some n → (n : Int) = litValue (strtoBase0 s) ∧ n ≤ 4294967295) :=
+  ⟨fun _ h => setInt_exact h, fun _ h => setUint_exact h⟩
+
+example : setInt [45, 48, 120, 49, 48] = some (-16) ∧ setUint [48, 49, 48] = some 8 ∧
+    setInt [50, 49, 52, 55, 52, 56, 51, 54, 52, 56] = none := by decide +kernel
+
+/-- **the defect repaired by F37.**  The unrepaired setters converted the `long` unchecked:
+    "2147483648" was accepted and stored as −2147483648 (rendered "-2147483648"),
+    "99999999999999999999" (strtol overflow, ERANGE ignored) as −1, and for unsigned "-1" as
+    4294967295 and "4294967296" as 0.  The repaired setters reject all four. -/
+theorem int_wrap_counterexample :
+    setIntOld [50, 49, 52, 55, 52, 56, 51, 54, 52, 56] = some (-2147483648) ∧
+    renderInt (-2147483648) ≠ [50, 49, 52, 55, 52, 56, 51, 54, 52, 56] ∧
+    setIntOld (List.replicate 20 57) = some (-1) ∧
+    setUintOld [45, 49] = some 4294967295 ∧
+    setUintOld [52, 50, 57, 52, 57, 54, 55, 50, 57, 54] = some 0 ∧
+    setInt [50, 49, 52, 55, 52, 56, 51, 54, 52, 56] = none ∧ setInt (List.replicate 20 57) = none ∧
+    setUint [45, 49] = none ∧ setUint [52, 50, 57, 52, 57, 54, 55, 50, 57, 54] = none := by
+  decide +kernel
+
 /-- the two canonical bool spellings (CF_BOOL is `cf_set_int`/`cf_get_int`) -/
 theorem set_get_roundtrip_bool :
     setInt [48] = some 0 ∧ setInt [49] = some 1 ∧ renderInt 0 = [48] ∧ renderInt 1 = [49] := by
@@ -249,6 +277,33 @@ theorem set_filename (env : Env) (v : Bytes) :
     simp [hi, hh]
 
 example : applySetter { exEnv with home := some [47, 104] } .file [126, 47, 120] = some (.str (some [47, 104, 47, 120])) := by
+  decide +kernel
+
+/-- **filename, `~user`**: `~user/rest` is the passwd directory of `user` (parameter `env.pwNam`)
+    followed by `/rest`, `~user` alone is that directory, an unknown user makes the setter fail;
+    `~` and `~/rest` use `$HOME`, or the passwd directory of the uid when HOME is unset. -/
+theorem set_filename_user (env : Env) (user rest : Bytes) (hu : user ≠ []) (hs : ∀ x ∈ user, x ≠ 47) :
+    applySetter env .file (126 :: user ++ 47 :: rest) =
+      (env.pwNam user).map (fun d => Val.str (some (d ++ 47 :: rest))) ∧
+    applySetter env .file (126 :: user) = (env.pwNam user).map (fun d => Val.str (some d)) ∧
+    (∀ r, r = [] ∨ r.head? = some 47 → applySetter env .file (126 :: r) =
+      (match env.home with | some h => some h | none => env.pwUid).map (fun d => Val.str (some (d ++ r)))) := by
+  refine ⟨?_, ?_, ?_⟩
+  · show (expandTilde env (126 :: user ++ 47 :: rest)).map (fun x => Val.str (some x)) = _
+    rw [expandTilde_user env user rest hu hs]
+    cases env.pwNam user <;> rfl
+  · show (expandTilde env (126 :: user)).map (fun x => Val.str (some x)) = _
+    rw [expandTilde_user_only env user hu hs]
+  · intro r hr
+    show (expandTilde env (126 :: r)).map (fun x => Val.str (some x)) = _
+    rw [expandTilde_self env r hr, Option.map_map]
+    rfl
+
+example :
+    let env := { exEnv with pwNam := fun n => if n == [98, 111, 98] then some [47, 98] else none }
+    applySetter env .file [126, 98, 111, 98, 47, 120] = some (.str (some [47, 98, 47, 120])) ∧
+    applySetter env .file [126, 97, 108, 47, 120] = none ∧
+    applySetter { env with pwUid := some [47, 117] } .file [126] = some (.str (some [47, 117])) := by
   decide +kernel
 
 /-- **round trip, lookup**: every spelling (any letter case) of a listed name stores its value,
@@ -425,6 +480,82 @@ example :
     (cfSet exEnv (exCf false none) exSt [109, 97, 105, 110] [114] [55]).2 = false ∧
     (cfSet exEnv (exCf false (some 3)) exSt [109, 97, 105, 110] [114] [55]).1.read (.rel 3 4)
       = some (.uint 7) := by decide +kernel
+
+/-- **CF_NO_RELOAD across a second load**: with `loaded` set, loading ANY file — section defaults,
+    explicit `key = value` lines, includes, success or failure — leaves every variable
+    untouched that is reachable only through CF_NO_RELOAD / CF_READONLY / setter-less keys. -/
+theorem no_reload_survives_second_load (env : Env) (cf : Cf δ) (hl : cf.loaded = true) (loc : Loc)
+    (hf : FrozenAt cf loc) (fs : Bytes → Option Bytes) (st : Store δ) (name : Bytes) :
+    (cfLoadFile env cf fs st name).1.read loc = st.read loc :=
+  reload_keeps_no_reload env cf hl loc hf fs st name
+
+/-- first load "[main]\nnr=8\n" stores 8; second load (loaded) of "[main]\nnr=9\ni=1\n" keeps 8 and sets i -/
+example :
+    let f1 : Bytes → Option Bytes := fun _ => some [91, 109, 97, 105, 110, 93, 10, 110, 114, 61, 56, 10]
+    let f2 : Bytes → Option Bytes := fun _ => some [91, 109, 97, 105, 110, 93, 10, 110, 114, 61, 57, 10, 105, 61, 49, 10]
+    let st1 := (cfLoadFile exEnv (exCf false none) f1 exSt [102]).1
+    let r2 := cfLoadFile exEnv (exCf true none) f2 st1 [102]
+    r2.2 = true ∧ cfGet exEnv (exCf true none) r2.1 [109, 97, 105, 110] [110, 114] = some [56] ∧
+    cfGet exEnv (exCf true none) r2.1 [109, 97, 105, 110] [105] = some [49] := by decide +kernel
+
+/-- **whole file, any schema**: loading the file `[sect]\nkey=val\n` is: the section event
+    (section_start, defaults), then `cf_set(sect, key, val)`, then the main-section test. -/
+theorem load_section_file (env : Env) (cf : Cf δ) (fs : Bytes → Option Bytes) (st : Store δ)
+    (name sect key val : Bytes)
+    (hfs : fs name = some (91 :: sect ++ [93, 10] ++ key ++ 61 :: val ++ [10]))
+    (hs : ∀ c ∈ sect, c ≠ 93 ∧ c ≠ 10 ∧ c ≠ 0) (hk : ∀ c ∈ key, isKeyCh c = true) (hv : PlainVal val) :
+    cfLoadFile env cf fs st name =
+      match loadHandler env cf { store := st } (.sect sect) with
+      | (ld1, false) => (ld1.store.note (.parse .badSect), false)
+      | (ld1, true) =>
+        match cfSet env cf ld1.store sect key val with
+        | (st2, false) => (st2.note (.parse .badVal), false)
+        | (st2, true) => if ld1.gotMain then (st2, true) else (st2.note .mainMissing, false) :=
+  cfLoadFile_two_lines env cf fs st name sect key val hfs hs hk hv
+
+/-- **whole file, relative section**: if `[sect]` is the main section, static, without defaults,
+    and `key` is a relative key of it, loading `[sect]\nkey=val\n` stores the parsed value at
+    offset `k.ofs` of exactly the object `base_lookup(cf->base, sect)` returns (or `cf->base`). -/
+theorem relative_key_base_whole_file (env : Env) (cf : Cf δ) (fs : Bytes → Option Bytes) (st : Store δ)
+    (name sect key val : Bytes) {s : Sect δ} {k : Key} {ty : Ty} {b : Nat} {v : Val}
+    (hfs : fs name = some (91 :: sect ++ [93, 10] ++ key ++ 61 :: val ++ [10]))
+    (hs : ∀ c ∈ sect, c ≠ 93 ∧ c ≠ 10 ∧ c ≠ 0) (hk : ∀ c ∈ key, isKeyCh c = true) (hv : PlainVal val)
+    (hr : Reaches cf sect key s k 0) (hss : s.sectionStart = none) (hnd : ∀ k' ∈ s.keys, k'.dflt = none)
+    (hty : k.setter = some ty) (hro : k.readOnly = false) (hnr : (k.noReload && cf.loaded) = false)
+    (hrel : k.rel = true) (hb : sectBase cf s sect = some b) (hval : applySetter env ty val = some v) :
+    cfLoadFile env cf fs st name = (st.write (Loc.rel b k.ofs) v, true) := by
+  rw [cfLoadFile_two_lines env cf fs st name sect key val hfs hs hk hv,
+    loadHandler_sect env cf _ sect hr.sect hss hr.static, setDefaults_nodflt env cf sect s.keys st hnd]
+  have hd : getDest (sectBase cf s sect) k = some (Loc.rel b k.ofs) := by simp [getDest, hrel, hb]
+  simp only []
+  rw [cfSet_stores env cf st hr hty hro hnr hd val, hval]
+  simp
+
+/-- **whole file, dynamic section**: if `[sect]` is the main section with `set_key` (no
+    section_start), loading `[sect]\nkey=val\n` is one call `set_key(base, key, val)` with the
+    section's base, and the load succeeds iff that call does. -/
+theorem dynamic_section_whole_file (env : Env) (cf : Cf δ) (fs : Bytes → Option Bytes) (st : Store δ)
+    (name sect key val : Bytes) {s : Sect δ} {f : δ → Option Nat → Bytes → Bytes → δ × Bool}
+    (hfs : fs name = some (91 :: sect ++ [93, 10] ++ key ++ 61 :: val ++ [10]))
+    (hs : ∀ c ∈ sect, c ≠ 93 ∧ c ≠ 10 ∧ c ≠ 0) (hk : ∀ c ∈ key, isKeyCh c = true) (hv : PlainVal val)
+    (hsect : findSect cf sect = some (0, s)) (hss : s.sectionStart = none) (hdyn : s.setKey = some f) :
+    cfLoadFile env cf fs st name =
+      match f st.user (sectBase cf s sect) key val with
+      | (u, true) => ({ st with user := u }, true)
+      | (u, false) => (({ st with user := u } : Store δ).note (.parse .badVal), false) := by
+  rw [cfLoadFile_two_lines env cf fs st name sect key val hfs hs hk hv]
+  have h1 : loadHandler env cf { store := st } (.sect sect) =
+      ({ store := st, curSect := some sect, gotMain := true }, true) := by
+    unfold loadHandler fillDefaults finishDefaults
+    simp [hsect, hss, hdyn]
+  rw [h1]
+  simp only []
+  have h2 : cfSet env cf st sect key val =
+      ({ st with user := (f st.user (sectBase cf s sect) key val).1 }, (f st.user (sectBase cf s sect) key val).2) := by
+    unfold cfSet
+    simp [hsect, hdyn]
+  rw [h2]
+  rcases f st.user (sectBase cf s sect) key val with ⟨u, _ | _⟩ <;> simp
 
 /-- **main section missing**: if no file that can be reached names the first section of the
     schema, `cf_load_file` returns false -/
